@@ -622,3 +622,26 @@ def data(text: str | bytes, where: str = "top") -> dict:
             return {"t": "notdata", "why": r.get("why", "no_list")}
         return r["xs"][0]
     raise ValueError(where)
+
+
+def has_duplicate_attrs(text: str | bytes) -> bool:
+    """Nix's own parser rejects a set that defines the same attribute path twice (`attribute already defined');
+    tree-sitter does not.  Such texts are not `programs that parse without error' for C01."""
+    root, b = cst(text)
+
+    def walk(node) -> bool:
+        if node.type == "binding_set":
+            seen = set()
+            for c in node.children:
+                if c.type == "binding":
+                    ap = next((x for x in c.children if x.type == "attrpath"), None)
+                    if ap is None:
+                        continue
+                    names = tuple(_attr_names(ap, b))
+                    if any(n.startswith("${dyn}") for n in names):
+                        continue
+                    if names in seen:
+                        return True
+                    seen.add(names)
+        return any(walk(c) for c in node.children)
+    return walk(root)
